@@ -57,6 +57,31 @@ g_union_info_get_n_fields  (GIUnionInfo *info)
   return blob->n_fields;
 }
 
+/* Offset of the @n-th FieldBlob (n == n_fields: of whatever follows the fields).
+ * A field with an embedded callback type is followed by its CallbackBlob,
+ * exactly as in a StructBlob (see g_struct_get_field_offset()).
+ */
+static guint32
+g_union_get_field_offset (GIUnionInfo *info,
+                          gint         n)
+{
+  GIRealInfo *rinfo = (GIRealInfo *)info;
+  Header *header = (Header *)rinfo->typelib->data;
+  guint32 offset = rinfo->offset + header->union_blob_size;
+  gint i;
+  FieldBlob *field_blob;
+
+  for (i = 0; i < n; i++)
+    {
+      field_blob = (FieldBlob *)&rinfo->typelib->data[offset];
+      offset += header->field_blob_size;
+      if (field_blob->has_embedded_type)
+        offset += header->callback_blob_size;
+    }
+
+  return offset;
+}
+
 /**
  * g_union_info_get_field:
  * @info: a #GIUnionInfo
@@ -72,11 +97,9 @@ g_union_info_get_field (GIUnionInfo *info,
 			gint         n)
 {
   GIRealInfo *rinfo = (GIRealInfo *)info;
-  Header *header = (Header *)rinfo->typelib->data;
 
   return (GIFieldInfo *) g_info_new (GI_INFO_TYPE_FIELD, (GIBaseInfo*)info, rinfo->typelib,
-				     rinfo->offset + header->union_blob_size +
-				     n * header->field_blob_size);
+				     g_union_get_field_offset (info, n));
 }
 
 /**
@@ -115,8 +138,7 @@ g_union_info_get_method (GIUnionInfo *info,
   Header *header = (Header *)rinfo->typelib->data;
   gint offset;
 
-  offset = rinfo->offset + header->union_blob_size
-    + blob->n_fields * header->field_blob_size
+  offset = g_union_get_field_offset (info, blob->n_fields)
     + n * header->function_blob_size;
   return (GIFunctionInfo *) g_info_new (GI_INFO_TYPE_FUNCTION, (GIBaseInfo*)info,
 					rinfo->typelib, offset);
@@ -197,8 +219,7 @@ g_union_info_get_discriminator (GIUnionInfo *info,
       Header *header = (Header *)rinfo->typelib->data;
       gint offset;
 
-      offset = rinfo->offset + header->union_blob_size
-	+ blob->n_fields * header->field_blob_size
+      offset = g_union_get_field_offset (info, blob->n_fields)
 	+ blob->n_functions * header->function_blob_size
 	+ n * header->constant_blob_size;
 
@@ -228,8 +249,7 @@ g_union_info_find_method (GIUnionInfo *info,
   Header *header = (Header *)rinfo->typelib->data;
   UnionBlob *blob = (UnionBlob *)&rinfo->typelib->data[rinfo->offset];
 
-  offset = rinfo->offset + header->union_blob_size
-    + blob->n_fields * header->field_blob_size;
+  offset = g_union_get_field_offset (info, blob->n_fields);
 
   return _g_base_info_find_method ((GIBaseInfo*)info, offset, blob->n_functions, name);
 }
